@@ -146,7 +146,7 @@ def _one(case: Dict[str, Any]) -> List[Dict[str, Any]]:
         for k in range(2 if case.get("twice") else 1):
             if k == 1 and out_dir.is_dir():
                 shutil.rmtree(out_dir, ignore_errors=True)
-            tr = pipe_trace.run_main(model_path, sn_dir, out_dir, target, text, arg_defect=defect)
+            tr = pipe_trace.run_main(model_path, sn_dir, out_dir, target, text, arg_defect=defect, via_module=bool(case.get("viaModule")))
             tr["_components"] = None
             results.append(tr)
     outs = []
